@@ -194,7 +194,32 @@ pub fn gen_c13(seed: u64, thorough: bool) -> Plan {
         flows: vec![],
         // one plan in eight performs its handshakes while a crowd of other tunnels through the same client is open (and stays
         // open): a request must be answered whatever else the client is carrying (fewer segmentations in those plans)
-        extra: serde_json::json!({ "case": case, "multi_samples": if thorough { 200 } else { 20 }, "sub_seed": g.next(), "crowd": if seed % 8 == 3 { g.range(20, if thorough { 300 } else { 140 }) } else { 0 } }),
+        extra: serde_json::json!({ "case": case, "multi_samples": if thorough { 200 } else { 20 }, "sub_seed": g.next(), "crowd": if seed % 8 == 3 { g.range(20, if thorough { 300 } else { 140 }) } else { 0 },
+            "prelude": if seed % 5 == 1 { prelude(&mut g) } else { Vec::new() } }),
+    }
+}
+
+/// what an earlier local connection sends before it goes away: an unfinished SOCKS5 or HTTP handshake, or a complete SOCKS5
+/// request for some other target with bytes behind it
+fn prelude(g: &mut Gen) -> Vec<u8> {
+    match g.below(6) {
+        0 => vec![5, 1, 0, 5, 1, 0, 3, 30, b'o', b't', b'h', b'e', b'r'],
+        1 => vec![5, 2, 0],
+        2 => b"GET http://other.example:8080/pa".to_vec(),
+        3 => b"CONNECT other.example:8080 HTTP/1.1\r\nHost: other.exa".to_vec(),
+        4 => {
+            // greeting + a complete request for 127.0.66.6:6666 (nobody listens there) + trailing bytes
+            let mut v = vec![5, 1, 0, 5, 1, 0, 1, 127, 0, 66, 6, 0x1a, 0x0a];
+            v.extend_from_slice(b"trailing bytes of the earlier connection");
+            v
+        }
+        _ => {
+            let mut v = vec![5, 1, 0, 5, 1, 0, 3, 13];
+            v.extend_from_slice(b"other.example");
+            v.extend_from_slice(&8080u16.to_be_bytes());
+            v.extend_from_slice(&[5, 1, 0, 5, 1, 0, 1]);
+            v
+        }
     }
 }
 
@@ -423,6 +448,21 @@ fn run_hs(plan: &Plan, case: &HsCase, cuts: Vec<usize>) -> HsRun {
             Ok(m) => m,
             Err(e) => return (HsObs::default(), Some(e)),
         };
+        // a local connection *before* the one under test: it sends (part of) a handshake and perhaps more, and goes away.
+        // Whatever it left behind is its own; the next connection's request is read from that connection alone.
+        if let Some(pre) = plan.extra.get("prelude").and_then(|v| serde_json::from_value::<Vec<u8>>(v.clone()).ok()) {
+            if !pre.is_empty() {
+                if let Ok(mut s) = TcpStream::connect(client_addr()).await {
+                    s.set_own_styles(0, 0);
+                    let _ = s.write_all(&pre).await;
+                    tokio::time::sleep(Duration::from_millis(300)).await;
+                    let mut buf = [0u8; 256];
+                    let _ = tokio::time::timeout(Duration::from_millis(50), s.read(&mut buf)).await;
+                    drop(s);
+                    tokio::time::sleep(Duration::from_millis(300)).await;
+                }
+            }
+        }
         let crowd = plan.extra["crowd"].as_u64().unwrap_or(0) as usize;
         let (crowd_up, _crowd) = if crowd > 0 { open_crowd(crowd).await } else { (0, Vec::new()) };
         if crowd_up < crowd {
@@ -457,7 +497,7 @@ fn run_hs(plan: &Plan, case: &HsCase, cuts: Vec<usize>) -> HsRun {
     let (obs, startup_err) = out.result;
     HsRun {
         obs,
-        server_dials: out.world.connects.iter().filter(|c| c.node == rt::NODE_SERVER && c.dst != SocketAddr::new(IpAddr::V4(Ipv4Addr::from(CROWD_IP)), CROWD_PORT)).map(|c| (c.dst, c.name.clone())).collect(),
+        server_dials: out.world.connects.iter().filter(|c| c.node == rt::NODE_SERVER && c.dst != SocketAddr::new(IpAddr::V4(Ipv4Addr::from(CROWD_IP)), CROWD_PORT) && c.dst != SocketAddr::new(IpAddr::V4(Ipv4Addr::new(127, 0, 66, 6)), 6666) && c.name.as_deref() != Some("other.example")).map(|c| (c.dst, c.name.clone())).collect(),
         dns: out.world.dns_queries.iter().filter(|q| q.node == rt::NODE_SERVER).map(|q| q.name.clone()).collect(),
         panics: out.panics,
         startup_err,
